@@ -3,6 +3,7 @@ package main
 // C04: pkg/readahead ImmediateReadAhead over a scripted io.Reader.
 
 import (
+	"syscall"
 	"encoding/hex"
 	"encoding/json"
 	"errors"
@@ -35,6 +36,10 @@ type c04Out struct {
 }
 
 var errInjected = errors.New("injected read error")
+
+// the identity of an injected failure varies (the property speaks of ANY non-EOF read error): chosen
+// by the position of the failure, so a case replays exactly
+var errKinds = []error{errInjected, io.ErrUnexpectedEOF, io.ErrClosedPipe, io.ErrNoProgress, io.ErrShortBuffer, syscall.EIO}
 
 type scriptReader struct {
 	script    []c04Step
@@ -77,7 +82,7 @@ func (r *scriptReader) Read(p []byte) (int, error) {
 		return n, io.EOF
 	default:
 		r.done = true
-		return n, errInjected
+		return n, errKinds[(r.pos+len(r.script))%len(errKinds)]
 	}
 }
 
